@@ -46,6 +46,9 @@ ResolveDurationRound(existing, lg, sm, inc, mode) ==
            lg2 == IF lg \in {Absent, "auto"} THEN UnitMax(existing, sm2) ELSE lg
        IN IF ~UnitLe(sm2, lg2) THEN ErrRange
           ELSE IF MaxInc(sm2) # 0 /\ ~IncOK(inc, MaxInc(sm2), FALSE) THEN ErrRange
+          \* a date unit can be rounded to an increment above 1 only as the largest unit as well (Duration.prototype.round:
+          \* "roundingIncrement > 1 and largestUnit is not smallestUnit and the category of smallestUnit is date" is a RangeError)
+          ELSE IF inc > 1 /\ lg2 # sm2 /\ sm2 \in DateUnits THEN ErrRange
           ELSE Resolved(lg2, sm2, inc, IF mode = Absent THEN "halfExpand" ELSE mode)
 
 \* PlainDateTime.round / ZonedDateTime.round: smallestUnit required, a time unit or day (day: increment 1 only)
